@@ -73,6 +73,7 @@ impl Prop for Rejections {
     }
     fn judge(&self, c: &RejectCase) -> Outcome {
         let mut f = Func {
+            sty: 0,
             vis: true,
             name: "f".into(),
             doc: vec![],
@@ -133,5 +134,5 @@ pub fn props() -> Vec<Box<dyn DynProp>> {
 pub fn run(ctx: &mut Ctx) {
     let q = ctx.quick();
     ctx.run(&Rejections, &Params::new(if q { 200 } else { 2000 }, 2, 6));
-    ctx.run(&Calls, &Params::new(if q { 160 } else { 6000 }, 200, 3000).shrink(60));
+    ctx.run(&Calls, &Params::new(if q { 1200 } else { 40_000 }, 200, 3000).shrink(60));
 }
